@@ -57,6 +57,11 @@ def isFail (e : PErr) : Step → Bool
   | .fail e' => e == e'
   | _ => false
 
+/-- what a step that consumed its argument stored in a slot -/
+def storedBytes (slot : String) : Step → Option Bytes
+  | .ret true _ env => some (getBytes env slot)
+  | _ => none
+
 def envOf : Outcome → Option Env
   | .ok env => some env
   | _ => none
@@ -70,10 +75,13 @@ theorem negative_numkeys_is_refused :
     isError .invalidArgNum (runGrammar Generated.grammar_ZInter [asciiBytes "-1", asciiBytes "k1"]) = true := by
   decide +kernel
 
-/-- D13: `parser.Enum` compares exactly -/
-theorem enum_is_case_sensitive :
-    isFail .syntaxError (runP (.enum "where" ["before", "after"]) [asciiBytes "BEFORE"] []) = true ∧
-    isFail .syntaxError (runP (.enum "where" ["before", "after"]) [asciiBytes "before"] []) = false := by
+/-- D13 (repaired): `parser.Enum` folds case — `BEFORE`, `Before` and `before` are all accepted and stored
+as `before`; a value that is not allowed is still a syntax error -/
+theorem enum_folds_case :
+    storedBytes "where" (runP (.enum "where" ["before", "after"]) [asciiBytes "BEFORE"] []) = some (asciiBytes "before") ∧
+    storedBytes "where" (runP (.enum "where" ["before", "after"]) [asciiBytes "Before"] []) = some (asciiBytes "before") ∧
+    storedBytes "where" (runP (.enum "where" ["before", "after"]) [asciiBytes "before"] []) = some (asciiBytes "before") ∧
+    isFail .syntaxError (runP (.enum "where" ["before", "after"]) [asciiBytes "BEFOR"] []) = true := by
   decide +kernel
 
 /-! ### `command.Parse` -/
